@@ -73,19 +73,29 @@ def gen(rng, n, tier):
                 rng.shuffle(nb)
                 chosen = [t for t in nb if rng.random() < 0.6]
                 cut = rng.randint(0, len(chosen))
-                posted = [[t, rng.randint(0, 99)] for t in chosen[:cut]]
-                returned = [[t, rng.randint(0, 99)] for t in chosen[cut:]] if k > 0 else []
+                # relay: re-send the message OBJECT received from a neighbour in this round (each
+                # source at most once per round, so an object is never in two channels at once)
+                srcs = list(adj[i])
+                rng.shuffle(srcs)
+
+                def ent(t):
+                    r = -1
+                    if k > 0 and srcs and rng.random() < 0.3:
+                        r = srcs.pop()
+                    return [t, rng.randint(0, 99), r]
+                posted = [ent(t) for t in chosen[:cut]]
+                returned = [ent(t) for t in chosen[cut:]] if k > 0 else []
                 if k == 0:
-                    posted = [[t, rng.randint(0, 99)] for t in chosen]
+                    posted = [[t, rng.randint(0, 99), -1] for t in chosen]
                 if not valid and rng.random() < 0.3:
                     bad = rng.choice(["dup", "nonnb", "dupret"])
                     if bad == "dup" and posted:
-                        posted.append(list(posted[0]))
+                        posted.append([posted[0][0], posted[0][1], -1])
                     elif bad == "dupret" and returned:
-                        returned.append(list(returned[0]))
+                        returned.append([returned[0][0], returned[0][1], -1])
                     elif bad == "nonnb" and nn >= 2:
                         t = rng.randrange(nn)
-                        (returned if k > 0 and rng.random() < 0.5 else posted).append([t, rng.randint(0, 99)])
+                        (returned if k > 0 and rng.random() < 0.5 else posted).append([t, rng.randint(0, 99), -1])
                 plan[i].append([posted, returned])
         cases.append(dict(kind="table", n=nn, adj={str(i): adj[i] for i in adj}, symmetric=symmetric, valid=valid,
                           plan={str(i): plan[i] for i in plan}, seed=rng.randrange(10**9),
@@ -120,17 +130,24 @@ def _run_table(c):
             return self._plan[k] if k < len(self._plan) else [[], []]
 
         def on_start(self):
-            for t, p in self._row(0)[0]:
+            for t, p, _r in self._row(0)[0]:
                 self.post_msg(_name(t), Tbl(p))
+
+        @staticmethod
+        def _msg(messages, p, r):
+            # relay: the very message object received from r in this round, else a fresh one
+            if r >= 0 and _name(r) in messages:
+                return messages[_name(r)][0]
+            return Tbl(p)
 
         def on_new_cycle(self, messages, cycle_id):
             log.append(["cycle", self.name, cycle_id, [[s, m.value] for s, (m, _) in messages.items()]])
             posted, returned = self._row(cycle_id + 1)
-            for t, p in posted:
-                self.post_msg(_name(t), Tbl(p))
+            for t, p, r in posted:
+                self.post_msg(_name(t), self._msg(messages, p, r))
             if not returned:
                 return None
-            return [(_name(t), Tbl(p)) for t, p in returned]
+            return [(_name(t), self._msg(messages, p, r)) for t, p, r in returned]
 
     nn = c["n"]
     comps = {_name(i): TableSync(_name(i), [_name(j) for j in c["adj"][str(i)]], c["plan"][str(i)]) for i in range(nn)}
@@ -194,6 +211,17 @@ def _run_real(c):
                 m = [[rng.randint(0, 9) for _ in dom] for _ in dom]
                 dcop.add_constraint(NAryMatrixRelation([vs[i], vs[j]], m, name="c%02d" % k))
                 k += 1
+    # overlapping scopes (a binary constraint inside a ternary one): the shared pair is reached
+    # through two different links and must still be ONE neighbour each way
+    if len(vs) >= 3 and rng.random() < 0.6:
+        i, j, l = rng.sample(range(len(vs)), 3)
+        if not any(set(cn.dimensions) == {vs[i], vs[j]} for cn in dcop.constraints.values()):
+            dcop.add_constraint(NAryMatrixRelation([vs[i], vs[j]], [[rng.randint(0, 9) for _ in dom] for _ in dom],
+                                                   name="c%02d" % k))
+            k += 1
+        m3 = [[[rng.randint(0, 9) for _ in dom] for _ in dom] for _ in dom]
+        dcop.add_constraint(NAryMatrixRelation([vs[i], vs[j], vs[l]], m3, name="c%02d" % k))
+        k += 1
     algo = c["algo"]
     mod = load_algorithm_module(algo)
     gm = import_module("pydcop.computations_graph." + mod.GRAPH_TYPE)
@@ -293,7 +321,7 @@ def coq_case(c, o):
     graph = q.lst([q.pair(q.z(i), q.zlist(c["adj"][str(i)])) for i in range(c["n"])])
 
     def pl(l):
-        return q.lst([q.pair(q.z(t), q.z(p)) for t, p in l])
+        return q.lst(["(%s, %s, %s)" % (q.z(t), q.z(p), q.z(r)) for t, p, r in l])
     plan = q.lst([q.pair(q.z(i), q.lst([q.pair(pl(r[0]), pl(r[1])) for r in c["plan"][str(i)]])) for i in range(c["n"])])
     sched = q.lst(["Start %s" % q.z(_idx(a[1])) if a[0] == "S" else "Deliver %s %s" % (q.z(_idx(a[1])), q.z(_idx(a[2])))
                    for a in o["sched"]])
